@@ -88,9 +88,9 @@ func walkAttributes(elem *etree.Element) {
 		} else if y.Space == "xmlns" && x.Space != "xmlns" {
 			return false
 		}
-		// then order by namespace and finally by key
-		if x.Space != y.Space {
-			return x.Space < y.Space
+		// then order by namespace URI (not by prefix) and finally by key
+		if xns, yns := attrNamespace(x), attrNamespace(y); xns != yns {
+			return xns < yns
 		}
 		return x.Key < y.Key
 	})
@@ -108,6 +108,15 @@ func walkAttributes(elem *etree.Element) {
 		}
 		i++
 	}
+}
+
+// namespace URI that an attribute's prefix is bound to
+func attrNamespace(attr etree.Attr) string {
+	if attr.Space == "xml" {
+		// bound by definition, never declared
+		return "http://www.w3.org/XML/1998/namespace"
+	}
+	return attr.NamespaceURI()
 }
 
 // does this element or its attributes reference the given namespace?
